@@ -59,9 +59,43 @@ func registerSyncIntrinsics() {
 		ls.w = 0
 		return nil
 	}
-	I["(*sync.Mutex).TryLock"] = func(ex *Exec, a []Value) Value {
-		panic(unsupported("TryLock"))
+	// TryLock / TryRLock: sequential mode: succeeds iff this call chain does not hold the lock in a
+	// conflicting mode; concurrent mode: the path forks into success (an ordinary critical section)
+	// and failure (an event that needs a conflicting section of another thread open at that instant)
+	tryLock := func(read bool) Intrinsic {
+		return func(ex *Exec, a []Value) Value {
+			p := a[0].(*Ptr)
+			if ex.conc != nil && ex.conc.active() && ex.conc.mode != "final" {
+				if ex.ctl.Choose(2, func(int) bool { return true }) == 0 {
+					if read {
+						ex.concLock(p, "rlock")
+					} else {
+						ex.concLock(p, "lock")
+					}
+					return ex.ts.Bool(true)
+				}
+				aux := "w"
+				if read {
+					aux = "r"
+				}
+				ex.addEvent(&Event{Kind: "trylockfail", Loc: "lock:" + ex.locKey(p), Aux: aux})
+				return ex.ts.Bool(false)
+			}
+			ls := ex.lockOf(p)
+			if ls.w > 0 || (!read && ls.r > 0) {
+				return ex.ts.Bool(false)
+			}
+			if read {
+				ls.r++
+			} else {
+				ls.w = 1
+			}
+			return ex.ts.Bool(true)
+		}
 	}
+	I["(*sync.Mutex).TryLock"] = tryLock(false)
+	I["(*sync.RWMutex).TryLock"] = tryLock(false)
+	I["(*sync.RWMutex).TryRLock"] = tryLock(true)
 	I["(*sync.RWMutex).Lock"] = func(ex *Exec, a []Value) Value {
 		p := a[0].(*Ptr)
 		if ex.conc != nil {
@@ -223,6 +257,88 @@ func registerSyncIntrinsics() {
 			ex.store(p, ex.ts.Ite(eq, a[2].(*Term), old))
 			return eq
 		}
+	}
+}
+
+// typed atomics (atomic.Int32 ... atomic.Bool): the value lives in the struct's field "v"
+func registerTypedAtomics() {
+	I := intrinsics
+	field := func(ex *Exec, tname string, p *Ptr) *Ptr {
+		pkg := ex.prog.ImportedPackage("sync/atomic")
+		if pkg == nil {
+			panic(unsupported("sync/atomic not loaded"))
+		}
+		st := pkg.Type(tname).Type().Underlying().(*types.Struct)
+		for i := 0; i < st.NumFields(); i++ {
+			if st.Field(i).Name() == "v" {
+				return p.child(i)
+			}
+		}
+		panic(unsupported("atomic." + tname + ": no value field"))
+	}
+	for _, w := range []string{"Int32", "Int64", "Uint32", "Uint64"} {
+		w := w
+		I["(*sync/atomic."+w+").Load"] = func(ex *Exec, a []Value) Value {
+			return intrinsics["sync/atomic.Load"+w](ex, []Value{field(ex, w, a[0].(*Ptr))})
+		}
+		I["(*sync/atomic."+w+").Store"] = func(ex *Exec, a []Value) Value {
+			return intrinsics["sync/atomic.Store"+w](ex, []Value{field(ex, w, a[0].(*Ptr)), a[1]})
+		}
+		I["(*sync/atomic."+w+").Add"] = func(ex *Exec, a []Value) Value {
+			return intrinsics["sync/atomic.Add"+w](ex, []Value{field(ex, w, a[0].(*Ptr)), a[1]})
+		}
+		I["(*sync/atomic."+w+").CompareAndSwap"] = func(ex *Exec, a []Value) Value {
+			return intrinsics["sync/atomic.CompareAndSwap"+w](ex, []Value{field(ex, w, a[0].(*Ptr)), a[1], a[2]})
+		}
+	}
+}
+
+// sync.Map (sequential harnesses only): modelled as a plain map with concrete keys, kept per
+// sync.Map object; in the concurrent mode it is unsupported (INCONCLUSIVE).
+func registerSyncMap() {
+	I := intrinsics
+	get := func(ex *Exec, v Value) *MapV {
+		if ex.conc != nil && ex.conc.active() {
+			panic(unsupported("sync.Map in the concurrent mode"))
+		}
+		k := "syncmap:" + v.(*Ptr).key()
+		if m, ok := ex.ghost[k].(*MapV); ok {
+			return m
+		}
+		m := &MapV{ID: ex.freshID(), Entries: map[string]*mapEntry{}}
+		ex.ghost[k] = m
+		return m
+	}
+	I["(*sync.Map).Load"] = func(ex *Exec, a []Value) Value {
+		m := get(ex, a[0])
+		if e, ok := m.Entries[ex.keyString(a[1])]; ok {
+			return TupleV{copyVal(e.V), ex.ts.Bool(true)}
+		}
+		return TupleV{&IfaceV{}, ex.ts.Bool(false)}
+	}
+	I["(*sync.Map).Store"] = func(ex *Exec, a []Value) Value {
+		get(ex, a[0]).Entries[ex.keyString(a[1])] = &mapEntry{K: a[1], V: copyVal(a[2])}
+		return nil
+	}
+	I["(*sync.Map).LoadOrStore"] = func(ex *Exec, a []Value) Value {
+		m := get(ex, a[0])
+		if e, ok := m.Entries[ex.keyString(a[1])]; ok {
+			return TupleV{copyVal(e.V), ex.ts.Bool(true)}
+		}
+		m.Entries[ex.keyString(a[1])] = &mapEntry{K: a[1], V: copyVal(a[2])}
+		return TupleV{copyVal(a[2]), ex.ts.Bool(false)}
+	}
+	I["(*sync.Map).LoadAndDelete"] = func(ex *Exec, a []Value) Value {
+		m := get(ex, a[0])
+		if e, ok := m.Entries[ex.keyString(a[1])]; ok {
+			delete(m.Entries, ex.keyString(a[1]))
+			return TupleV{copyVal(e.V), ex.ts.Bool(true)}
+		}
+		return TupleV{&IfaceV{}, ex.ts.Bool(false)}
+	}
+	I["(*sync.Map).Delete"] = func(ex *Exec, a []Value) Value {
+		delete(get(ex, a[0]).Entries, ex.keyString(a[1]))
+		return nil
 	}
 }
 
